@@ -50,7 +50,7 @@ fn args_of(sel: &Sel) -> Vec<String> {
 /// What the statement says must execute.
 fn expected_set(sel: &Sel, lkm: bool) -> BTreeSet<String> {
     match sel {
-        Sel::Default if lkm => KNOWN_CHECKS.iter().filter(|n| props::ccl::checkers::MODULES_LKM.contains(n)).map(|s| s.to_string()).collect(),
+        Sel::Default if lkm => KNOWN_CHECKS.iter().filter(|n| props::ccl::checkers::MODULES_LKM.contains(*n)).map(|s| s.to_string()).collect(),
         Sel::Default => KNOWN_CHECKS.iter().filter(|n| **n != "CWE78").map(|s| s.to_string()).collect(),
         Sel::Partial(l) => l.split(',').filter(|t| !t.is_empty()).map(|s| s.to_string()).collect(),
         _ => BTreeSet::new(),
@@ -139,7 +139,7 @@ fn single_reference(cli: &Cli, p: &Prepared, m: &str) -> Option<Vec<Warning>> {
     if out.status != Some(0) {
         return None;
     }
-    j.warnings.map(|w| w.into_iter().filter(|x| x.name == m).collect())
+    j.warnings.map(|w| w.into_iter().filter(|x| cli.owners(x).iter().any(|o| o == m)).collect())
 }
 
 fn fail_class(out: &cli_run::RunOut) -> String {
@@ -246,21 +246,22 @@ fn run_sel(ctx: &Ctx, cli: &Cli, p: &Prepared, sel: &Sel, reference: &dyn Fn(&st
     if !ws.is_empty() {
         ctx.add_nontrivial(1);
     }
-    for n in &names {
-        if !ran_set.contains(*n) {
-            let note = if ran_set.contains("Memory") { " (Memory executed)" } else { "" };
-            ctx.violation(format!("warning of a check that was not executed: {n}{note}"), case(), detail(json!({"executed": ran, "warning": ws.iter().find(|w| w.name == *n).map(|w| w.description.clone())})));
+    // a warning belongs to the checks that report under its name with its version (see cli_run::reports_as)
+    let mut flagged: BTreeSet<&str> = BTreeSet::new();
+    for w in &ws {
+        let owners = cli.owners(w);
+        if !owners.iter().any(|o| ran_set.contains(o)) && flagged.insert(w.name.as_str()) {
+            ctx.violation(format!("warning of a check that was not executed: {} {}", w.name, w.version), case(), detail(json!({"executed": ran, "possible_origin": owners, "warning": w.description})));
         }
     }
     for m in &ran_set {
         let Some(want) = reference(m) else { continue };
-        let got: Vec<&Warning> = ws.iter().filter(|w| w.name == *m).collect();
+        let got: Vec<&Warning> = ws.iter().filter(|w| cli.owners(w).iter().any(|o| o == m)).collect();
         let same = got.len() == want.len() && got.iter().zip(want.iter()).all(|(a, b)| **a == *b);
         ctx.add_evaluations(1);
         if !same {
-            let note = if m == "CWE476" && ran_set.contains("Memory") { " (Memory executed)" } else { "" };
             ctx.violation(
-                format!("warnings of {m} differ from its single-check run{note}"),
+                format!("warnings of {m} differ from its single-check run"),
                 case(),
                 detail(json!({"executed": ran, "in_this_run": got.iter().map(|w| w.description.clone()).collect::<Vec<_>>(), "alone": want.iter().map(|w| w.description.clone()).collect::<Vec<_>>()})),
             );
@@ -330,6 +331,7 @@ fn main() {
         }),
     );
     ctx.assume("default selection = all known checks except CWE78; kernel-module default = the known checks named in MODULES_LKM (the constant is the definition of the subset)");
+    ctx.assume("a warning belongs to check M if M reports under the warning's CWE identifier (CWE119: CWE119/CWE125/CWE787, CWE416: CWE416/CWE415, Memory: CWE476, otherwise its own name) and the warning carries M's version");
     ctx.assume("an unknown name in --partial must make the run fail (any non-zero exit counts as rejection); what a failing run printed is not judged");
     ctx.assume("the differential reference for check M is M's output when run alone on the same input; runs that fail are reported and give no reference");
     ctx.finish(
